@@ -180,12 +180,26 @@ def rule_r3(prog, res) -> None:
     gs = base.methods.get("get_data_size")
     if gs is not None:
         res.touch(gs)
-        cfg = cfg_of(gs.node)
-        tests = [t for t in cfg.nodes if t.kind == "test" and "len(self.weights)" in unparse(t.expr) and "len(self.redshifts)" in unparse(t.expr)]
-        from .common import branch_nodes_of, raise_dominated_by
+        from .. import symx
 
-        if tests and any(raise_dominated_by(cfg, b) for t in tests for pol, b in branch_nodes_of(cfg, t).items() if pol) and any(isinstance(o, ast.NotEq) for t in tests for x in ast.walk(t.expr) if isinstance(x, ast.Compare) for o in x.ops):
-            res.ok("C16.R3", res.site(gs), "raises when weights and redshifts have different lengths")
+        attrs = ("self.weights", "self.redshifts")
+        facts = {}
+        for a_ in attrs:
+            facts[f"{a_} is None"] = False
+            facts[f"{a_} is not None"] = True
+        paths = symx.explore(prog, gs, facts=facts, inline=symx.inline_private_helpers(prog))
+        rets = [p for p in paths if p.outcome != "raise"]
+        want = {f"len({a_})" for a_ in attrs}
+
+        def lengths_equal(p) -> bool:
+            for t, pol, _ in p.conds:
+                if isinstance(t, ast.Compare) and len(t.ops) == 1 and {unparse(t.left), unparse(t.comparators[0])} == want:
+                    if (isinstance(t.ops[0], ast.NotEq) and not pol) or (isinstance(t.ops[0], ast.Eq) and pol):
+                        return True
+            return False
+
+        if rets and all(lengths_equal(p) for p in rets) and any(p.outcome == "raise" for p in paths):
+            res.ok("C16.R3", res.site(gs), "with both attribute arrays given, every returning path has passed len(weights) == len(redshifts); the other outcome raises")
         else:
             res.violation("C16.R3", gs, gs.node, "attribute arrays of different length are accepted: a common row index is not meaningful", key_extra="attribute-lengths")
 
